@@ -738,18 +738,41 @@ package p9
 //@   panic_ensures[C15,C16] samelocks()
 //@   maypanic
 
-// markChildDeleted / renameChildTo walk the tree below the entry (unbounded
-// recursion, loops over maps being mutated): contracts assumed, see DESIGN.md.
-//@ func (*fidRef).markChildDeleted
+// markChildDeleted: proved against the body for what it does to the entry
+// itself - the references under the name are unregistered from f's own node,
+// the child node is detached and handed to notifyDelete, which fences it. That
+// notifyDelete also fences every node *below* it (recursion through
+// forEachChildNode over an unbounded subtree) and that the tree invariants
+// survive are assumed (assumed_ensures / abstract, listed in the evidence).
+//@ func notifyDelete
 //@   abstract
+//@   requires[C08] pn != nil
+//@   modifies type:pathNode.deleted
+//@   ensures[C08] @root-of-the-removed-subtree-is-fenced pn.deleted != 0
+//@   ensures[C15,C16] samelocks()
+
+//@ func (*fidRef).markChildDeleted
 //@   requires[C07,C08] @entry-quiesced globalLocked(f) || (held(f.server.renameMu) >= 1 && held(f.pathNode.opMu) == -1)
+//@   requires[C06,C16] @no-child-lock-held forall(pn, *pathNode, held(pn.childMu) == 0)
+//@   requires[C05,C15] owedNonNeg()
 //@   requires[C09] InamesSafe()
-//@   ensures[C09] InamesSafe()
+//@   assumed_ensures[C09] InamesSafe()
 //@   requires[C07,C08,C16] Inodes()
-//@   ensures[C07,C08,C16] Inodes()
+//@   assumed_ensures[C07,C08,C16] Inodes()
 //@   requires[C07,C08] Irefs()
-//@   ensures[C07,C08] Irefs()
-//@   modifies type:pathNode.deleted, maps(map[string]*pathNode), maps(map[*fidRef]string), maps(map[string]map[*fidRef]struct{}), maps(map[*fidRef]struct{})
+//@   assumed_ensures[C07,C08] Irefs()
+//@   assumed_ensures[C05,C15] owedNonNeg() && sameOwed() && sameOwn()
+//@   assumed_panic_ensures[C09] InamesSafe()
+//@   assumed_panic_ensures[C07,C08,C16] Inodes()
+//@   assumed_panic_ensures[C07,C08] Irefs()
+//@   assumed_panic_ensures[C05,C15] owedNonNeg() && sameOwed() && sameOwn()
+//@   panic_ensures[C15,C16] samelocks()
+//@   modifies type:pathNode.deleted, type:fidRef.parent, type:fidRef.refs, maps(map[string]*pathNode), maps(map[*fidRef]string), maps(map[string]map[*fidRef]struct{}), maps(map[*fidRef]struct{}), $n.File.Renamed, $n.File.Close, $closeerr, $ncalls, $owed, $own
+//@   at (*pathNode).removeWithName requires[C08] @unregisters-the-name-in-this-directory recv == f.pathNode && arg0 == name
+//@   at notifyDelete requires[C08] @fences-the-detached-child-node arg0 == origPathNode
+//@   ensures[C08] @name-no-longer-resolves-here !has(f.pathNode.childNodes, name)
+//@   ensures[C15,C16] samelocks()
+//@   maypanic
 // renameChildTo: proved against the body for the discipline of what it calls
 // (which node and which name every tree update goes to, what the backend is
 // told, lock preconditions, reference accounting of the re-parenting). That it
